@@ -123,8 +123,17 @@ def rotated_basis(rng, d, traceless):
     return np.einsum('ij,jkl->ikl', o, g)
 
 
-def rand_basis_spec(rng, d, allow_incomplete=False):
+def nonhermitian_basis(rng, d):
+    """a complete orthonormal basis with NON-Hermitian elements: a complex unitary mixture of the
+    Gell-Mann elements (d = 2: close to {1, Z, sigma_+, sigma_-} in spirit)"""
+    g = np.array(ff.Basis.ggm(d))
+    return np.einsum('kl,lij->kij', rand_unitary(rng, d*d), g)
+
+
+def rand_basis_spec(rng, d, allow_incomplete=False, allow_nonherm=False):
     ks = ['ggm', 'rot_tl', 'rot_ntl']
+    if allow_nonherm and rng.random() < 0.15:
+        return ('custom', nonhermitian_basis(rng, d), False, 'Custom')
     if d in (2, 4, 8):
         ks.append('pauli')
     if allow_incomplete:
